@@ -45,7 +45,7 @@ ASSUMPTIONS = [
 ]
 
 C33_CODES = [
-    "new", "new", "add", "set", "set", "append", "append", "remove", "replace", "clear", "setparent", "setparent", "clearparent",
+    "hand", "ucode", "new", "new", "add", "set", "set", "append", "append", "remove", "replace", "clear", "setparent", "setparent", "clearparent",
     "tagadd", "tagremove", "pk", "pk", "fav", "delete", "delete", "delete", "expunge", "merge",
     "flush", "flush", "commit", "commit", "rollback", "rollback", "nested", "nested", "nested", "nested", "release", "release",
     "nrollback", "nrollback", "nrollback", "expire", "read", "read", "read", "close",
